@@ -16,6 +16,7 @@ import (
 	"github.com/notaryproject/notation-core-go/signature"
 	"github.com/notaryproject/notation-go"
 	"github.com/notaryproject/notation-go/registry"
+	"github.com/notaryproject/notation-go/signer"
 	"github.com/opencontainers/go-digest"
 	ocispec "github.com/opencontainers/image-spec/specs-go/v1"
 	"oras.land/oras-go/v2"
@@ -50,7 +51,8 @@ func (c11) Components() map[string]string {
 // call: I = [ref kind 0 tag 1 digest 2 full-tag 3 full-digest 4 mismatching digest, metadata 0 none 1 disjoint 2 colliding 3 reserved 4 disjoint-two, format, repeatPrevious, sleepSec]
 func (c11) Gen(r *rand.Rand, tier string, idx int) *core.Plan {
 	p := &core.Plan{World: map[string]int64{}}
-	p.World["store"] = int64(r.IntN(4)) // 0 recording repo, 1 memory, 2 disk via NewOCIRepository, 3 disk behind wrapper
+	p.World["store"] = int64(r.IntN(5)) // 0 recording repo, 1 memory, 2 disk via NewOCIRepository, 3 disk behind wrapper, 4 memory presented as a remote registry
+	p.World["pluginSigner"] = int64(r.IntN(3) / 2)
 	p.World["annots"] = int64(r.IntN(4))
 	p.World["confused"] = int64(r.IntN(2))
 	n := 1 + r.IntN(3)
@@ -124,6 +126,16 @@ func (s *recordingSigner) Sign(ctx context.Context, desc ocispec.Descriptor, opt
 	c.Annotations = copyMap(desc.Annotations)
 	s.descs = append(s.descs, c)
 	return s.inner.Sign(ctx, desc, opts)
+}
+
+// PluginAnnotations forwards the optional annotation interface of the wrapped signer.
+func (s *recordingSigner) PluginAnnotations() map[string]string { return s.annotations() }
+
+func (s *recordingSigner) annotations() map[string]string {
+	if a, ok := s.inner.(interface{ PluginAnnotations() map[string]string }); ok {
+		return a.PluginAnnotations()
+	}
+	return nil
 }
 
 func copyMap(m map[string]string) map[string]string {
@@ -204,7 +216,7 @@ func (l c11) Exec(env *core.Env) *core.Result {
 	case 0:
 		sr = &sharingRepo{tags: map[string]bool{tag: true}, confused: p.W("confused") == 1}
 		sr.stored = ocispec.Descriptor{MediaType: ocispec.MediaTypeImageManifest, Digest: digest.FromString("c11 artifact"), Size: 528, Annotations: copyMap(baseAnn)}
-	case 1:
+	case 1, 4:
 		inner = memory.New()
 		if err := setup(inner); err != nil {
 			res.Violate("HARNESS/setup", "", "%v", err)
@@ -245,6 +257,9 @@ func (l c11) Exec(env *core.Env) *core.Result {
 			case 3:
 				tgt = &world.Target{Inner: inner}
 				repo = registry.NewRepository(tgt)
+			case 4:
+				tgt = &world.Target{Inner: inner}
+				repo = registry.NewRepository(&world.RemoteLike{PagingTarget: &world.PagingTarget{Target: tgt}})
 			}
 		}
 		openRepo()
@@ -278,12 +293,24 @@ func (l c11) Exec(env *core.Env) *core.Result {
 		artifactDigest = view(false).Digest.String()
 		views := map[bool]ocispec.Descriptor{false: view(false), true: view(true)}
 		resolvedWant = views[false]
-		rs := &recordingSigner{inner: world.NewSigner(chain)}
+		var innerSigner notation.Signer = world.NewSigner(chain)
+		pluginAnn := map[string]string{}
+		if p.W("pluginSigner") == 1 {
+			// an envelope-generator plugin that also returns manifest annotations
+			pluginAnn = map[string]string{"plugin.annotation": "from-plugin"}
+			ps, err := signer.NewPluginSigner(&world.SignPlugin{Name: "annot", Chain: chain, Envelope: true, Annotations: pluginAnn}, "key-1", nil)
+			if err != nil {
+				res.Violate("HARNESS/pluginsigner", "", "%v", err)
+				return
+			}
+			innerSigner = ps
+		}
+		rs := &recordingSigner{inner: innerSigner}
 		var prev *notation.SignOptions
 		for ci, op := range p.Ops {
 			rt.Yield("op")
 			if op.Kind == "reopen" {
-				if storeKind >= 2 {
+				if storeKind == 2 || storeKind == 3 {
 					if s, err := oci.New(layout); err == nil {
 						inner = s
 						openRepo()
@@ -468,6 +495,9 @@ func (l c11) Exec(env *core.Env) *core.Result {
 			}
 			tb, _ := json.Marshal(thumbs)
 			wantMann := map[string]string{"io.cncf.notary.x509chain.thumbprint#S256": string(tb), "org.opencontainers.image.created": tCall.Truncate(time.Second).UTC().Format(time.RFC3339)}
+			for k, v := range rs.annotations() {
+				wantMann[k] = v // annotations a signing plugin returned for the manifest
+			}
 			if !sameMap(mann, wantMann) {
 				res.Violate("C11/manifest-annotations-wrong", key, "signature manifest annotations %v, want %v", mann, wantMann)
 			}
